@@ -46,9 +46,12 @@ def gen_members(rng, n=None):
 def write_case(rng, case):
     """returns (archive bytes, expected members [(name, kind, bytes)], password)"""
     chain, header_mode, sessions, tree = case["chain"], case["header"], case["sessions"], case["tree"]
-    password = "pässwörd\U0001F511" if (arch.needs_pw(chain) or header_mode == "encrypted") else None
+    # the password holds precomposed letters, DEcomposed ones (a + U+0308, e + U+0301, Hangul jamo) and an astral character: the key
+    # derivation hashes the UTF-16LE code units of the string AS GIVEN, so a writer that normalises (NFC/NFD/NFKC), case-folds or
+    # re-encodes the password derives a key the independent reader (which hashes the exact string) cannot reproduce (seed C07-10)
+    password = "pässwo\u0308rd\U0001F511cafe\u0301\u1100\u1161" if (arch.needs_pw(chain) or header_mode == "encrypted") else None
     if header_mode == "encrypted" and not arch.needs_pw(chain):
-        password = "pw"
+        password = "pw\u0301"
     expected = []
     bio = io.BytesIO()
     filters = arch.CHAINS[chain]
